@@ -47,7 +47,7 @@ def compile_parallel(ctx, rels, kind='generated', timeout=300):
             res[rel] = False
             continue
         todo.append(rel)
-    out = ctx.coqc_many(todo, timeout) if todo else {}
+    out = ctx.coqc_many(todo, timeout, jobs=4) if todo else {}
     for rel in rels:
         path = os.path.join(ctx.bdir, rel)
         names = [m.group(2) for m in ctx._thm_re.finditer(open(path).read())] if os.path.exists(path) else []
